@@ -117,7 +117,16 @@ def main():
         for x in glob.glob(os.path.join(VERIF, ".cache", "hooklib*-" + tag + "*")):
             shutil.rmtree(x, ignore_errors=True) if os.path.isdir(x) else os.remove(x)
     shutil.copy(patch, os.path.join(dst, "patch.diff"))
-    json.dump(meta, open(os.path.join(dst, "meta.json"), "w"), indent=1)
+    mp = os.path.join(dst, "meta.json")
+    if os.path.exists(mp) and sys.argv[3:]:
+        # a re-run of selected checks after the machinery was corrected: keep the first run, add the re-run
+        old = json.load(open(mp))
+        old["rerun"] = {"at": time.strftime("%Y-%m-%d %H:%M"), "checks": meta.get("checks", {})}
+        bad = [c for c, v in meta.get("checks", {}).items() if v["exit"] != 0]
+        inc = [c for c, v in meta.get("checks", {}).items() if v["exit"] == 0 and v["inconclusive"]]
+        old["after_fix"] = "re-run of %s: %s%s" % (", ".join(meta.get("checks", {})), "all exit 0" if not bad else "exit != 0: " + ", ".join(bad), ("; INCONCLUSIVE parts in " + ", ".join(inc)) if inc else "")
+        meta = old
+    json.dump(meta, open(mp, "w"), indent=1)
     print(json.dumps({k: v for k, v in meta.items() if k != "checks"}, indent=1))
 
 
